@@ -38,7 +38,7 @@ def _fresh(st):
 QUICK_MEI = [False]
 
 
-def make_diff(kind, framing, fcs, one_read):
+def make_diff(kind, framing, fcs, one_read, burst=False):
     lens = [body_len(fc, 1) if fc in (15, 16, 23) else (3 if fc == 43 else (4 if fc == 8 else body_len(fc, None))) for fc in fcs]
 
     def diff(t: bytes, u: int, b: bytes, st: bytes) -> bool:
@@ -62,7 +62,7 @@ def make_diff(kind, framing, fcs, one_read):
         results = []
         for fe in TRIO[kind]:
             slave, ctx = _fresh(st)
-            r = SL.drive(fe, framing, ctx, chunks)
+            r = SL.drive(fe, framing, ctx, chunks, burst=burst)     # (burst: asyncio segments arrive before the handler task runs)
             from pymodbus.device import ModbusControlBlock
             ModbusControlBlock().ListenOnly = False
             if r.escaped is not None:
@@ -70,8 +70,11 @@ def make_diff(kind, framing, fcs, one_read):
                 return False
             # "connection given up by the server": the sync/asyncio handlers close it themselves; Twisted's reactor drops a
             # connection whose dataReceived raised. Datagram front-ends have no connection to give up.
-            if kind == "dgram" and fe == "twisted-udp" and len(chunks) > 1:
-                known("KF-twisted-udp-stale-buffer", r.twisted_dropped is not None)
+            if kind == "dgram" and fe == "twisted-udp" and len(chunks) > 1 and fcs[0] in (16, 23):
+                # the listed finding: a datagram whose decode raises (it promises more register data than it carries)
+                # stays in the shared framer's buffer and makes the NEXT datagram raise
+                from harness import c04
+                known("KF-twisted-udp-stale-buffer", (r.twisted_dropped is not None) and c04._regs_short(fcs[0], b[0:lens[0]]))
             gave_up = (r.closed or r.twisted_dropped is not None) if kind == "stream" else False
             results.append((fe, b"".join(r.written), SL.dump(slave), gave_up))
         base = results[0]
@@ -297,6 +300,10 @@ def obligations(tier):
                                    findings=("KF-twisted-udp-stale-buffer",) if kind == "dgram" and fa == 16 else (),
                                    contracts=CONTRACTS[fr] + (("bits",) if fa in (15,) or fb in (1,) else ()), lemmas=LEMMAS[fr],
                                    bounds="%s front-ends, %s framing: two requests (fc %d then fc %d), all bytes symbolic, %s" % (kind, fr, fa, fb, "pipelined in one read" if one_read else "one per read")))
+    for fr in (("rtu",) if tier == "quick" else ("rtu", "tcp")):
+        out.append(Obl("diff.stream.%s.fc6+fc3.two-reads.back-to-back" % fr, make_diff("stream", fr, (6, 3), False, burst=True), timeout=T,
+                       contracts=CONTRACTS[fr], lemmas=LEMMAS[fr],
+                       bounds="stream front-ends, %s framing: two requests (fc 6 then fc 3) in two segments that reach the asyncio handler back-to-back (before its task runs); all bytes symbolic" % fr))
     for kind in ("stream", "dgram"):
         for im in (False, True):
             for one_read in ((True, False) if kind == "stream" else (False,)):
